@@ -38,6 +38,13 @@ type rRound struct {
 	EnvHooks int  `json:"env_hooks,omitempty"`
 	// Poll: the consumer starts the call with wait=false and retries (yielding) while nothing is ready.
 	Poll bool `json:"poll,omitempty"`
+	// Slow: the packets of the response arrive spread over 8 simulated seconds (longer than the packet read
+	// timeout of 5 s in total, shorter than the consumer's own deadline).
+	Slow bool `json:"slow,omitempty"`
+	// Truncated (last round only, mode until-err, abort at the first callback): the response's last packet never
+	// arrives, so the drain after the failing callback ends with the consumer's deadline. The returned error
+	// must still match the callback's error and carry this response's messages.
+	Truncated bool `json:"truncated,omitempty"`
 	// ConcurrentHook registers one more EED hook from a second task while this round's response is delivered.
 	ConcurrentHook bool `json:"concurrent_hook,omitempty"`
 }
@@ -239,6 +246,7 @@ func genRounds(r *Rand, nRounds int, eedPct, envPct int, hooks bool) []rRound {
 		rd.StopAt = r.Intn(len(cb))
 		rd.Poll = rd.Mode != "manual" && r.Pct(25)
 		rd.ErrEOF = rd.Mode == "until-err" && r.Pct(30)
+		rd.Slow = !rd.Poll && r.Pct(8)
 		if hooks {
 			if ri == 0 {
 				rd.EEDHooks, rd.EnvHooks = r.Intn(3), r.Intn(3)
@@ -248,6 +256,9 @@ func genRounds(r *Rand, nRounds int, eedPct, envPct int, hooks bool) []rRound {
 			rd.ConcurrentHook = r.Pct(15)
 		}
 		rounds = append(rounds, rd)
+	}
+	if last := &rounds[len(rounds)-1]; last.Mode == "until-err" && len(last.Cuts) > 0 && !last.Poll && r.Pct(30) {
+		last.Truncated, last.StopAt, last.Slow = true, 0, false
 	}
 	return rounds
 }
@@ -394,6 +405,22 @@ func runRounds(p *roundsPlan, schedSeed uint64, replay []simrt.Choice, lenient, 
 		for _, it := range p.Rounds[ri].Items {
 			body = append(body, it.bytes()...)
 		}
+		if p.Rounds[ri].Truncated {
+			pks := peer.Packetise(body, p.Rounds[ri].Cuts, peer.BufResponse, m.Channel, true)
+			pr.SendPackets(pks[:len(pks)-1])
+			return
+		}
+		if p.Rounds[ri].Slow {
+			pks := peer.Packetise(body, p.Rounds[ri].Cuts, peer.BufResponse, m.Channel, true)
+			for i, pk := range pks {
+				d := time.Duration(0)
+				if len(pks) > 1 {
+					d = 8 * time.Second * time.Duration(i) / time.Duration(len(pks)-1)
+				}
+				pr.Conn.DeliverAfter(d, pk)
+			}
+			return
+		}
 		if p.Rounds[ri].Poll {
 			// polling consumers get the packets one simulated millisecond apart, so that a poll can find the
 			// first packages while the rest of the response is still in flight
@@ -450,6 +477,7 @@ func runRounds(p *roundsPlan, schedSeed uint64, replay []simrt.Choice, lenient, 
 			// one context per round: a round that hangs must not starve the following ones
 			ctx, cancel := simrt.WithTimeout(context.Background(), 10*time.Second)
 			simrt.Record("round-start", "", "", int64(ri))
+			roundStart := simrt.SimNow()
 			if err := ch.SendPackage(ctx, &tds.LanguagePackage{Cmd: "q" + strconv.Itoa(ri)}); err != nil {
 				ro.extraErr = "send: " + err.Error()
 				return
@@ -485,15 +513,17 @@ func runRounds(p *roundsPlan, schedSeed uint64, replay []simrt.Choice, lenient, 
 					pkg, err := ch.NextPackageUntil(ctx, true, func(pkg tds.Package) (bool, error) {
 						see(pkg)
 						if rd.Mode == "until-eof" && calls == rd.StopAt {
+							// also on the final DONE: a consumer may end its row loop that way
 							calls++
-							if !isFinal(pkg) {
-								return false, io.EOF
-							}
+							return false, io.EOF
 						}
 						calls++
 						return isFinal(pkg), nil
 					})
 					if err == io.EOF && pkg != nil {
+						if isFinal(pkg) {
+							break // the response is over
+						}
 						continue // the documented "next result set" signal: go on reading
 					}
 					if err != nil {
@@ -531,6 +561,12 @@ func runRounds(p *roundsPlan, schedSeed uint64, replay []simrt.Choice, lenient, 
 				// the packets of this response were sent a millisecond apart: wait until the last one is in
 				simrt.Sleep(time.Duration(len(rd.Cuts)+2) * time.Millisecond)
 			}
+			if rd.Slow {
+				// the packets were spread over eight seconds from the request on: wait until the last one is in
+				if d := roundStart + 8*time.Second + 2*time.Millisecond - simrt.SimNow(); d > 0 {
+					simrt.Sleep(d)
+				}
+			}
 			ro.sizeAfter = conn.PacketSize()
 			simrt.Record("round-end", "", "", int64(ri))
 			cancel()
@@ -539,7 +575,7 @@ func runRounds(p *roundsPlan, schedSeed uint64, replay []simrt.Choice, lenient, 
 		defer cancel()
 		// after the last round nothing may be left over
 		simrt.Sleep(time.Millisecond)
-		for n := 0; n < 20; n++ {
+		for n := 0; n < 20 && !p.Rounds[len(p.Rounds)-1].Truncated; n++ {
 			pkg, err := ch.NextPackage(ctx, false)
 			if err != nil {
 				if !errors.Is(err, tds.ErrNoPackageReady) {
@@ -668,6 +704,14 @@ func (c03) Run(plan interface{}, schedSeed uint64, replay []simrt.Choice, lenien
 				v.Violate("not-returned", "consumer call never returned: "+rd.Mode, "%s: the consumer never finished reading the response", where)
 			}
 			break
+		}
+		if rd.Truncated {
+			// the response never ends; if the callback was reached its error must come back
+			if len(ro.seen) > 0 && (ro.callErr == nil || !errors.Is(ro.callErr, rd.cbErr())) {
+				v.Violate("wrong-error", "until-err: returned error does not match the callback's error (drain failed)", "%s, last packet never arrives: NextPackageUntil returned %v", where, ro.callErr)
+			}
+			v.Probe("truncated-drain")
+			continue
 		}
 		if ro.callErr != nil && simrt.IsSimCtxErr(ro.callErr) {
 			v.Violate("hang", "end of response never signalled: "+endOf(rd.Items)+prevEnd(p, ri), "%s: the consumer waited until its context expired (%v); nothing told it that the response had ended", where, ro.callErr)
@@ -820,8 +864,8 @@ func (c11) Run(plan interface{}, schedSeed uint64, replay []simrt.Choice, lenien
 	hung := -1
 	for ri, rd := range p.Rounds {
 		ro := obs.rounds[ri]
-		if !ro.returned || (ro.callErr != nil && simrt.IsSimCtxErr(ro.callErr)) {
-			hung = ri // a hang is C03's subject; judge only what happened before it
+		if !ro.returned || (ro.callErr != nil && simrt.IsSimCtxErr(ro.callErr)) || rd.Truncated {
+			hung = ri // a hang is C03's subject; judge only what happened before it (a truncated round: below)
 			break
 		}
 		for _, it := range rd.Items {
@@ -936,7 +980,7 @@ func (c11) Run(plan interface{}, schedSeed uint64, replay []simrt.Choice, lenien
 			_, cb := expectRound(rd.Items)
 			if rd.StopAt < len(cb) {
 				// non-info EEDs that precede the aborting callback invocation
-				var before []string
+				var before, all []string
 				cbIdx := -1
 				for _, it := range rd.Items {
 					if !it.visible() {
@@ -946,6 +990,7 @@ func (c11) Run(plan interface{}, schedSeed uint64, replay []simrt.Choice, lenien
 						if cbIdx < rd.StopAt {
 							before = append(before, it.describe())
 						}
+						all = append(all, it.describe())
 						continue
 					}
 					cbIdx++
@@ -961,11 +1006,49 @@ func (c11) Run(plan interface{}, schedSeed uint64, replay []simrt.Choice, lenien
 					for _, e := range eedErr.EEDPackages {
 						got = append(got, fmt.Sprintf("EED n=%d s=%d", e.MsgNumber, e.Status))
 					}
-					if !isPrefix(before, got) {
-						v.Violate("callback-error", "error carries wrong messages", "%s: messages before the failing callback %v, carried by the error %v", where, before, got)
+					// what the error may carry: the messages before the failing callback, then those the drain of the
+					// rest of THIS response met - nothing else (no message of another response)
+					if !isPrefix(before, got) || !isPrefix(got, all) {
+						v.Violate("callback-error", "error carries wrong messages", "%s: messages before the failing callback %v, all messages of this response %v, carried by the error %v", where, before, all, got)
 					}
 				}
 			}
+		}
+	}
+	if last := len(p.Rounds) - 1; p.Rounds[last].Truncated && obs.rounds[last].returned && len(obs.rounds[last].seen) > 0 {
+		// the last packet never arrived: the callback failed at its first invocation and the drain ran into the
+		// consumer's deadline; the error must still be the callback's and carry only this response's messages
+		rd, ro := p.Rounds[last], obs.rounds[last]
+		where := fmt.Sprintf("round %d (%s, mode %s, last packet never arrives)", last, shapeOf(rd.Items), rd.Mode)
+		var before, all []string
+		seenCb := false
+		for _, it := range rd.Items {
+			if !it.visible() {
+				continue
+			}
+			if it.K == "eed" {
+				if !seenCb {
+					before = append(before, it.describe())
+				}
+				all = append(all, it.describe())
+				continue
+			}
+			seenCb = true
+		}
+		v.Probe("truncated-drain")
+		var eedErr *tds.EEDError
+		if !errors.Is(ro.callErr, rd.cbErr()) {
+			v.Violate("callback-error", "returned error does not match the callback's error (drain failed)", "%s: NextPackageUntil returned %v", where, ro.callErr)
+		} else if errors.As(ro.callErr, &eedErr) {
+			var got []string
+			for _, e := range eedErr.EEDPackages {
+				got = append(got, fmt.Sprintf("EED n=%d s=%d", e.MsgNumber, e.Status))
+			}
+			if !isPrefix(before, got) || !isPrefix(got, all) {
+				v.Violate("callback-error", "error carries wrong messages", "%s: messages before the failing callback %v, all messages of this response %v, carried by the error %v", where, before, all, got)
+			}
+		} else if len(before) > 0 {
+			v.Violate("callback-error", "error does not carry the messages received so far", "%s: %d messages preceded the failing callback but the error is %T", where, len(before), ro.callErr)
 		}
 	}
 	calls := len(obs.eedCalls) + len(obs.envCalls)
